@@ -191,6 +191,8 @@ class Executor(ExprMixin, StmtMixin, LoopMixin):
             # solvers would otherwise have to re-derive the formula from itself by instantiation
             if any(z3.is_quantifier(h) and alpha_eq(goal, h) for h in hyps):
                 goal = z3.BoolVal(True)
+        if getattr(self.c, "canon_binders", False):
+            info = dict(info or {}, canon_binders=True)
         name = f"{self.label_prefix}{self.fn_name}.{kind}.{label}"
         k = self._names.get(name, 0)
         self._names[name] = k + 1
@@ -453,6 +455,10 @@ class Executor(ExprMixin, StmtMixin, LoopMixin):
     def wrap_py(self, o, n="?"):
         if isinstance(o, ops._CT) and not ops._has_val(o):
             return Val.const(o)
+        import enum as _enum
+
+        if isinstance(o, _enum.Enum):
+            return Val(T.enum_type_of(o), None, o, True)  # a (non-int) enum member: a typed python-level constant
         if inspect.isfunction(o) or inspect.isclass(o) or inspect.isbuiltin(o) or inspect.ismethod(o):
             mod = getattr(o, "__module__", "?")
             return Val.obj(FuncRef(o, f"{mod}.{getattr(o, '__qualname__', n)}"))
@@ -466,6 +472,10 @@ class Executor(ExprMixin, StmtMixin, LoopMixin):
         if inspect.ismodule(o) or inspect.isclass(o):
             if not hasattr(o, name):
                 raise Unsupported(f"{o!r} has no attribute {name}", node)
+            return self.wrap_py(getattr(o, name), name)
+        import enum as _enum
+
+        if isinstance(o, _enum.Enum) and name in ("value", "name"):
             return self.wrap_py(getattr(o, name), name)
         if isinstance(o, SuperProxy):
             return Val.obj(BoundMethod(o.recv, name, after=o.after))
@@ -656,7 +666,32 @@ class Executor(ExprMixin, StmtMixin, LoopMixin):
                 if q in DEOPT_ARGS:
                     args = [self.deopt(a, st, node) for a in args]
                 return m.model(self, st, args, kwargs, node)
-            # 3. exception / declared classes
+            # 3. enum classes: EnumClass(value) looks the member up (ValueError when there is none)
+            import enum as _enum
+
+            if inspect.isclass(f.obj) and issubclass(f.obj, _enum.Enum) and len(args) == 1 and not kwargs:
+                et = T.Enum(f"{f.obj.__module__}:{f.obj.__qualname__}")
+                a0 = self.deopt(args[0], st, node)
+                if isinstance(a0.ty, T.Enum) and a0.ty == et:
+                    return a0
+                if is_const(a0) or (a0.is_py and isinstance(a0.py, _enum.Enum)):
+                    try:
+                        return self.wrap_py(f.obj(a0.py))
+                    except ValueError:
+                        self.safety(st, z3.BoolVal(False), "ValueError", node)
+                        raise Unsupported("enum lookup of a constant that is no member value", node)
+                vt = et.value_type()
+                if vt is None or a0.ty != vt:
+                    raise Unsupported(f"{f.obj.__name__}(<{a0.ty}>)", node)
+                x = lift(a0)
+                ms = et.members()
+                mv = lambda m: z3.IntVal(int(m.value)) if vt == T.INT else z3.StringVal(m.value)  # noqa: E731
+                self.safety(st, z3.Or(*[x == mv(m) for m in ms]), "ValueError", node)
+                r = et.const(ms[-1])
+                for m in reversed(ms[:-1]):
+                    r = z3.If(x == mv(m), et.const(m), r)
+                return Val(et, r)
+            # 4. exception / declared classes
             if inspect.isclass(f.obj) and issubclass(f.obj, BaseException):
                 return Val.obj(ExcVal(f.obj.__name__, args))
             if inspect.isclass(f.obj):
